@@ -11,7 +11,7 @@ from mc import history
 from oracles import plfun as P
 
 PROPERTY = "C09"
-SCALARS = [-2, -1, 0.5, 3]
+SCALARS = [-2, -1, 0.5, 3, 0, 1, -0.0, 2.5e-7]
 TOL = 1e-9
 RULE = (
     "A: ALL ordered pairs of the operand set (exact: landscapes of all multisets of <= 2 lattice bars, all "
@@ -164,13 +164,16 @@ def exact_row(case, ctx):
         want = [P.scale(f, c) for f in fa]
         refs_equal(ctx, "exact-mul", ctx.call(lambda: A * c), want, "A*%r" % c, ex)
         refs_equal(ctx, "exact-mul", ctx.call(lambda: c * A), want, "%r*A" % c, ex)
-        wantd = [P.scale(f, P.F(1) / P.F(c)) for f in fa]
-        refs_equal(ctx, "exact-div", ctx.call(lambda: A / c), wantd, "A/%r" % c, ex)
+        if c != 0:
+            wantd = [P.scale(f, P.F(1) / P.F(c)) for f in fa]
+            refs_equal_tol(ctx, "exact-div", ctx.call(lambda: A / c), wantd, "A/%r" % c, ex, TOL * max(1.0, abs(1.0 / c)))
     must_raise(ctx, "exact-div-zero", "A/0", lambda: A / 0, ex)
     must_raise(ctx, "exact-div-zero", "A/0.0", lambda: A / 0.0, ex)
     Q = PersLandscapeExact(critical_pairs=[[[0, 0], [1, 1], [2, 0]]], hom_deg=1)
     must_raise(ctx, "exact-degree-mismatch", "A + (landscape of another homological degree)", lambda: A + Q, ex)
     must_raise(ctx, "exact-degree-mismatch", "A - (landscape of another homological degree)", lambda: A - Q, ex)
+    must_raise(ctx, "exact-degree-mismatch", "(landscape of another homological degree) + A", lambda: Q + A, ex)
+    must_raise(ctx, "exact-degree-mismatch", "(landscape of another homological degree) - A", lambda: Q - A, ex)
     ctx.valid()
     if snap(A) != sA:
         ctx.violation("operand-modified", "a unary/scalar operation changed its operand", observed=snap(A)[2], expected=sA[2], extra=ex)
@@ -198,7 +201,6 @@ def exact_row(case, ctx):
             A2, B2 = tr(A), tr(B)
             fa2, fb2 = lsops.exact_ref(A2), lsops.exact_ref(B2)
             D2 = ctx.call(lambda: A2 - B2)
-            global TOL
             refs_equal_tol(ctx, "exact-sub", D2, [P.sub(z(fa2, i), z(fb2, i)) for i in range(n)], "A-B (x -> %r*x%+r)" % (a_, c_), ex2, TOL * a_)
 
 
@@ -220,7 +222,8 @@ def grid_row(case, ctx):
     for c in SCALARS:
         vals_equal(ctx, "grid-mul", ctx.call(lambda: A * c), c * va, grid, "A*%r" % c, ex)
         vals_equal(ctx, "grid-mul", ctx.call(lambda: c * A), c * va, grid, "%r*A" % c, ex)
-        vals_equal(ctx, "grid-div", ctx.call(lambda: A / c), va / c, grid, "A/%r" % c, ex)
+        if c != 0:
+            vals_equal(ctx, "grid-div", ctx.call(lambda: A / c), va / c, grid, "A/%r" % c, ex)
     must_raise(ctx, "grid-div-zero", "A/0", lambda: A / 0, ex)
     start, stop, num = grid
     for what, kw in (("hom_deg", dict(start=start, stop=stop, num_steps=num, hom_deg=1)),
@@ -230,6 +233,18 @@ def grid_row(case, ctx):
         Q = PersLandscapeApprox(values=np.zeros((1, kw["num_steps"])) + 1.0, **kw)
         must_raise(ctx, "grid-mismatch", "A + (landscape with another %s)" % what, lambda: A + Q, ex)
         must_raise(ctx, "grid-mismatch", "A - (landscape with another %s)" % what, lambda: A - Q, ex)
+        must_raise(ctx, "grid-mismatch", "(landscape with another %s) + A" % what, lambda: Q + A, ex)
+        must_raise(ctx, "grid-mismatch", "(landscape with another %s) - A" % what, lambda: Q - A, ex)
+    # the same mismatches at a tiny numeric scale and far from the origin (a tolerance-based grid
+    # comparison would accept them)
+    for what, g1, g2 in (("stop, grid scaled by 1e-9", (start * 1e-9, stop * 1e-9), (start * 1e-9, stop * 1.5e-9)),
+                         ("start, grid scaled by 1e-9", (start * 1e-9, stop * 1e-9), (start * 1e-9 - 1e-9, stop * 1e-9)),
+                         ("start, grid shifted by 1e6", (start + 1e6, stop + 1e6), (start + 1e6 + 0.25, stop + 1e6)),
+                         ("stop, grid shifted by 1e6", (start + 1e6, stop + 1e6), (start + 1e6, stop + 1e6 + 0.5))):
+        A1 = PersLandscapeApprox(values=va.copy(), start=g1[0], stop=g1[1], num_steps=num, hom_deg=0)
+        Q1 = PersLandscapeApprox(values=va.copy(), start=g2[0], stop=g2[1], num_steps=num, hom_deg=0)
+        must_raise(ctx, "grid-mismatch", "A + (landscape with another %s)" % what, lambda: A1 + Q1, ex)
+        must_raise(ctx, "grid-mismatch", "(landscape with another %s) - A" % what, lambda: Q1 - A1, ex)
     ctx.valid()
     if snap(A) != sA:
         ctx.violation("operand-modified", "a unary/scalar operation changed its operand", extra=ex)
